@@ -61,10 +61,12 @@ fn linked(layer: u16, to: u16) -> RawCel<RawPixels> {
 #[kani::unwind(5)]
 #[kani::stub(alloc::fmt::format, crate::vklib::empty_format)]
 #[kani::stub(crate::palette::ColorPalette::color, crate::vklib::stub_color_none)]
+#[kani::stub(std::hash::RandomState::new, crate::vklib::fixed_random_state)]
+#[kani::stub(crate::tileset::TilesetsById::get, crate::vklib::stub_tilesets_get_none)]
 fn c04_q_validate_raw_cel_layer_beyond_layers() {
     let layers = one_layer();
     let cels = mk_cels(vec![vec![Some(raw_rgba_1px(0)), Some(raw_rgba_1px(1))]]);
-    let r = cels.validate(&layers, &PixelFormat::Rgba, None);
+    let r = cels.validate(&layers, &TilesetsById::new(), &PixelFormat::Rgba, None);
     kani::cover!(true);
     core::mem::forget(r);
     core::mem::forget(layers);
@@ -75,11 +77,13 @@ fn c04_q_validate_raw_cel_layer_beyond_layers() {
 #[kani::unwind(4)]
 #[kani::stub(alloc::fmt::format, crate::vklib::empty_format)]
 #[kani::stub(crate::palette::ColorPalette::color, crate::vklib::stub_color_none)]
+#[kani::stub(std::hash::RandomState::new, crate::vklib::fixed_random_state)]
+#[kani::stub(crate::tileset::TilesetsById::get, crate::vklib::stub_tilesets_get_none)]
 fn c04_q_validate_linked_cel_any_frame() {
     let layers = one_layer();
     let to: u16 = kani::any();
     let cels = mk_cels(vec![vec![Some(linked(0, to))]]);
-    let r = cels.validate(&layers, &PixelFormat::Rgba, None);
+    let r = cels.validate(&layers, &TilesetsById::new(), &PixelFormat::Rgba, None);
     assert!(r.is_err(), "a link to itself or to a frame that does not exist is rejected");
     kani::cover!(to == 0);
     kani::cover!(to == 1);
@@ -93,11 +97,13 @@ fn c04_q_validate_linked_cel_any_frame() {
 #[kani::unwind(4)]
 #[kani::stub(alloc::fmt::format, crate::vklib::empty_format)]
 #[kani::stub(crate::palette::ColorPalette::color, crate::vklib::stub_color_none)]
+#[kani::stub(std::hash::RandomState::new, crate::vklib::fixed_random_state)]
+#[kani::stub(crate::tileset::TilesetsById::get, crate::vklib::stub_tilesets_get_none)]
 fn c04_q_validate_linked_cel_layer_beyond_layers() {
     let layers = one_layer();
     let to: u16 = kani::any();
     let cels = mk_cels(vec![vec![None, Some(linked(1, to))]]);
-    let r = cels.validate(&layers, &PixelFormat::Rgba, None);
+    let r = cels.validate(&layers, &TilesetsById::new(), &PixelFormat::Rgba, None);
     kani::cover!(to == 0);
     core::mem::forget(r);
     core::mem::forget(layers);
